@@ -9,7 +9,7 @@ sys.path.insert(0, os.path.join(HERE, "tools"))
 import mkmanifest
 
 def read(p):
-    return open(os.path.join(HERE, p)).read()
+    return open(os.path.join(HERE, p), errors="replace").read()
 
 props = [json.loads(l) for l in open(os.path.join(HERE, "properties.jsonl"))]
 notes = {}
